@@ -30,9 +30,9 @@ EXTENDS Turn, Json, CSV, IOUtils
 
 TraceLog == ndJsonDeserialize(IOEnv.QXV_TRACE)
 
-VARIABLES l, cid, mon, viol, nviol, failed, ndiv, divs, dflag, ncases, stats
+VARIABLES l, cid, mon, viol, nviol, failed, ndiv, divs, dcs, dflag, ncases, stats
 
-tvars == <<vars, l, cid, mon, viol, nviol, failed, ndiv, divs, dflag, ncases, stats>>
+tvars == <<vars, l, cid, mon, viol, nviol, failed, ndiv, divs, dcs, dflag, ncases, stats>>
 
 \* monitor: what an observer of the wire and of the public API knows
 \*   req    requests seen, by transaction index      open   transactions seen and not yet answered / cancelled
@@ -48,7 +48,7 @@ Stats0 == [steps |-> 0, authentic |-> 0, unauthentic |-> 0, inbound |-> 0, early
 
 TInit ==
     /\ Init /\ pw = TRUE
-    /\ l = 1 /\ cid = "" /\ mon = Mon0 /\ viol = {} /\ nviol = 0 /\ failed = {} /\ ndiv = 0 /\ divs = <<>>
+    /\ l = 1 /\ cid = "" /\ mon = Mon0 /\ viol = {} /\ nviol = 0 /\ failed = {} /\ ndiv = 0 /\ divs = <<>> /\ dcs = {}
     /\ dflag = FALSE /\ ncases = 0 /\ stats = Stats0
 
 (* --- reading an observation ------------------------------------------------------------------------------ *)
@@ -221,6 +221,7 @@ Diverge(d, info) ==
     /\ dflag' = (dflag \/ d)
     /\ ndiv' = IF d /\ ~dflag THEN ndiv + 1 ELSE ndiv
     /\ divs' = IF d /\ ~dflag /\ Len(divs) < 10 THEN Append(divs, [case |-> cid, line |-> l] @@ info) ELSE divs
+    /\ dcs' = IF d THEN dcs \cup {cid} ELSE dcs
 
 ViolCap == 40
 AddViol(S) ==
@@ -231,7 +232,7 @@ AddViol(S) ==
 ResetStep(ev) ==
     /\ Reinit(ev.pw)
     /\ cid' = ev.case /\ mon' = Mon0 /\ dflag' = FALSE /\ ncases' = ncases + 1
-    /\ UNCHANGED <<viol, nviol, failed, ndiv, divs, stats>>
+    /\ UNCHANGED <<viol, nviol, failed, ndiv, divs, dcs, stats>>
 
 AbortStep(ev) ==
     /\ Diverge(TRUE, [what |-> "Abort", model |-> <<>>, impl |-> ev.why])
@@ -280,6 +281,6 @@ TNext ==
 TSpec == TInit /\ [][TNext]_tvars
 
 Summary == [cases |-> ncases, lines |-> l - 1, viol |-> viol, nviol |-> nviol, nfailed |-> Cardinality(failed),
-            failed |-> failed, ndiv |-> ndiv, divs |-> divs, stats |-> stats]
+            failed |-> failed, ndiv |-> ndiv, divs |-> divs, dcases |-> dcs, stats |-> stats]
 Done == l <= Len(TraceLog) \/ CSVWrite("%1$s", <<ToJson(Summary)>>, IOEnv.QXV_SUMMARY)
 =============================================================================
